@@ -165,7 +165,7 @@ def run(ctx):
     for b in bad[:5]:
         ctx.finding("tensor:" + b["complaints"][0][:60], b["complaints"][0], {"kind": "failing-input", "case": b["case"], "complaints": b["complaints"],
                     "how": "matid.geometry.get_displacement_tensor(positions, cell, pbc, cutoff, return_factors=True, return_distances=True)"})
-    if broken and not ctx.findings:
+    if broken and not ctx.unknown_findings():
         ctx.finding("unproved", "proof/correspondence broken, no failing input found", {"kind": "broken-obligation", "broken": broken}, found_input=False)
     ctx.coverage["broken"] = [{"what": k, "info": i} for k, i in broken]
     ctx.coverage["correspondence_mismatches"] = len(mism)
